@@ -18,32 +18,49 @@ EligiblePairs == {<<d, a>> : d \in {k \in 1..Len(C.dtx) : InSpan(C.dtx[k], C.lb)
 GotPairs == {<<C.records[k].d, C.records[k].a>> : k \in 1..Len(C.records)}
 
 (***************************************************************************)
-(* Small variants of the donor and acceptor transcripts (C.dvars[d],        *)
-(* C.avars[a]: transcript coordinates) on the fused sequence.  A donor       *)
-(* variant is carried when it ends `margin` bases or more before the end of  *)
-(* the donor's exonic part; an acceptor variant when it starts `margin`      *)
-(* bases or more after the first exonic acceptor base kept (the acceptor's   *)
-(* tail is the fused sequence's tail).  margin = 1 is what the tool takes     *)
-(* (required); margin = 0 is the most that may be allowed.                    *)
+(* Small variants on the fused sequence.  C.dvars[d] / C.avars[a]: the       *)
+(* small variants of the donor / acceptor GENE in gene coordinates           *)
+(* [gs, ge, ref, alt, id, own], own = the record names this transcript.       *)
+(* The exonic part of the fused sequence carries the transcript's own        *)
+(* variants; a retained intronic stretch carries the variants of any          *)
+(* transcript of the gene that lie in it (the variant is genomic).  A variant *)
+(* is placed through the genomic positions it covers: all of them belong to   *)
+(* one part (donor exonic, donor retained, acceptor retained, acceptor        *)
+(* exonic) and are consecutive there.  strict: it does not touch the first or *)
+(* last base of a retained stretch, the last exonic donor base or the first   *)
+(* exonic acceptor base (what the tool takes; required) - otherwise allowed.   *)
 (***************************************************************************)
-TxExLen(t) == Cardinality({x \in SpanPos(t) : Exonic(t, x)})
-DonorExLen(t, lb) == Cardinality({x \in SpanPos(t) : Exonic(t, x) /\ UpTo(t, x, lb)})
-AccExStart(t, rb) == TxExLen(t) - Cardinality({x \in SpanPos(t) : Exonic(t, x) /\ UpTo(t, rb, x)})
 Fused(d, a) == DonorSeq(C.chrom, C.dtx[d], C.lb) \o AcceptorSeq(C.chrom, C.atx[a], C.rb)
-VRec(v, off) == [start |-> v.start + off, end |-> v.end + off, ref |-> v.ref, alt |-> v.alt, id |-> v.id]
 HasVars == "dvars" \in DOMAIN C
-FusedVars(d, a, margin) ==
+Cov(g, v) == {Gene2G(g, p) : p \in v.gs..(v.ge - 1)}
+IdxIn(t, PP, x) == Cardinality({y \in PP : UpTo(t, y, x)}) - 1
+FirstOf(t, PP) == CHOOSE x \in PP : \A y \in PP : UpTo(t, x, y)
+LastOf(t, PP) == CHOOSE x \in PP : \A y \in PP : UpTo(t, y, x)
+(* the variants of list L (gene g) placed on part PP of transcript t, the part starting at fused index off *)
+Placed(L, g, t, PP, off, exonic, strict) ==
+  {[start |-> off + IdxIn(t, PP, Gene2G(g, v.gs)), end |-> off + IdxIn(t, PP, Gene2G(g, v.gs)) + (v.ge - v.gs),
+    ref |-> v.ref, alt |-> v.alt, id |-> v.id] :
+     v \in {x \in ToSet(L) : /\ PP # {}
+                              /\ Cov(g, x) \subseteq PP
+                              /\ (exonic => x.own)
+                              /\ IdxIn(t, PP, Gene2G(g, x.ge - 1)) - IdxIn(t, PP, Gene2G(g, x.gs)) = x.ge - x.gs - 1
+                              /\ (strict => (exonic => (IF off = 0 THEN LastOf(t, PP) ELSE FirstOf(t, PP)) \notin Cov(g, x)))
+                              /\ (strict => (~exonic => FirstOf(t, PP) \notin Cov(g, x) /\ LastOf(t, PP) \notin Cov(g, x)))}}
+FusedVars(d, a, strict) ==
   IF ~HasVars THEN {}
-  ELSE LET ld == DonorExLen(C.dtx[d], C.lb)
-           as == AccExStart(C.atx[a], C.rb)
-           off == Len(Fused(d, a)) - TxExLen(C.atx[a])
+  ELSE LET td == C.dtx[d]  ta == C.atx[a]
+           dex == {x \in DonorSet(td, C.lb) : Exonic(td, x)}      dre == DonorSet(td, C.lb) \ dex
+           aex == {x \in AcceptorSet(ta, C.rb) : Exonic(ta, x)}   are == AcceptorSet(ta, C.rb) \ aex
            sidx == IF C.dinfo[d].coding THEN C.dinfo[d].orfStart + 3 ELSE 3
-       IN {w \in {VRec(v, 0) : v \in {x \in ToSet(C.dvars[d]) : x.end <= ld - margin}} : Usable(w, sidx, <<0, 0>>)}
-          \cup {VRec(v, off) : v \in {x \in ToSet(C.avars[a]) : x.start >= as + margin}}
-FusedHaps(d, a, margin) ==
+           nd == Cardinality(dex)  ndr == Cardinality(dre)  nar == Cardinality(are)
+       IN {w \in Placed(C.dvars[d], C.gd, td, dex, 0, TRUE, strict) : Usable(w, sidx, <<0, 0>>)}
+          \cup Placed(C.dvars[d], C.gd, td, dre, nd, FALSE, strict)
+          \cup Placed(C.avars[a], C.ga, ta, are, nd + ndr, FALSE, strict)
+          \cup Placed(C.avars[a], C.ga, ta, aex, nd + ndr + nar, TRUE, strict)
+FusedHaps(d, a, strict) ==
   LET sidx == IF C.dinfo[d].coding THEN C.dinfo[d].orfStart + 3 ELSE 3
-  IN {H \in SUBSET FusedVars(d, a, margin) : Compatible(H, sidx)}
-FusedRefsOk(d, a) == \A v \in FusedVars(d, a, 0) : RefMatches(Fused(d, a), v)
+  IN {H \in SUBSET FusedVars(d, a, strict) : Compatible(H, sidx)}
+FusedRefsOk(d, a) == \A v \in FusedVars(d, a, FALSE) : RefMatches(Fused(d, a), v)
 
 (* peptides of the fused sequence: from the donor's annotated start, or from every   *)
 (* ATG that begins before the junction when the donor is non-coding                  *)
@@ -51,10 +68,10 @@ FusionPeptides(d, a) ==
   UNION {LET s == Apply(Fused(d, a), H)
              starts == IF C.dinfo[d].coding THEN {C.dinfo[d].orfStart} ELSE AtgStarts(s)   \* any start of the fused sequence (the property only asks for a digestion product of it)
          IN UNION {LET o == OrfOf(s, x, {}) IN OrfPeptides(o.pep, C.cfg, TRUE, o.open, FALSE) : x \in starts}
-         : H \in FusedHaps(d, a, 0)}
+         : H \in FusedHaps(d, a, FALSE)}
 
-(* completeness (C01 on fusion backbones, coding donors whose breakpoint lies after the start     *)
-(* codon): every peptide of the fused sequence read from the donor's annotated start, except      *)
+(* completeness (C01 on fusion backbones, coding donors whose exonic part kept includes the whole  *)
+(* start codon): every peptide of the fused sequence read from the donor's annotated start, except      *)
 (* open-ended tails, digestion products of the unmodified donor transcript and canonical          *)
 (* peptides, is in the FASTA                                                                      *)
 Canonical == CanonicalPool(C.proteome, C.cfg)
@@ -64,9 +81,9 @@ DonorRef(d) == LET o == OrfOf(TxSeq(C.chrom, C.dtx[d]), C.dinfo[d].orfStart, {})
 (* is required for such rows                                                                      *)
 AmbiguousBreak(t, lb) == ~Exonic(t, lb) /\ Exonic(t, IF t.strand = 1 THEN lb + 1 ELSE lb - 1)
 FusionRequired(d, a) ==
-  IF ~C.dinfo[d].coding \/ Len(DonorSeq(C.chrom, C.dtx[d], C.lb)) < C.dinfo[d].orfStart + 3 \/ AmbiguousBreak(C.dtx[d], C.lb) THEN {}
+  IF ~C.dinfo[d].coding \/ Cardinality({x \in DonorSet(C.dtx[d], C.lb) : Exonic(C.dtx[d], x)}) < C.dinfo[d].orfStart + 3 \/ AmbiguousBreak(C.dtx[d], C.lb) THEN {}
   ELSE UNION {LET o == OrfOf(Apply(Fused(d, a), H), C.dinfo[d].orfStart, {})
-              IN OrfPeptides(o.pep, C.cfg, TRUE, o.open, TRUE) : H \in FusedHaps(d, a, 1)} \ (DonorRef(d) \cup Canonical)
+              IN OrfPeptides(o.pep, C.cfg, TRUE, o.open, TRUE) : H \in FusedHaps(d, a, TRUE)} \ (DonorRef(d) \cup Canonical)
 AllObs == {C.allobs[k] : k \in 1..Len(C.allobs)}
 
 Verdict ==
